@@ -206,7 +206,7 @@ def gen_tok_ops(rng, comment, observe=False):
         elif c < 4: ops.append("af:" + gen_chunk(rng))
         elif c < 5: ops.append("rp:" + gen_chunk(rng))
         elif c < 6: ops.append("rm")
-        elif comment: ops.append("st:" + hx(rng.choice(["new", "", "a-->b", "--!>", ">x", "->", "a--b", "-", "ok - ok"])))
+        elif comment: ops.append("st:" + hx(rng.choice(["new", "", "a-->b", "--!>", ">x", "->", "a--b", "-", "ok - ok", "a --->b", "--->", "x---!>y", "----->", "a-- >", "--", "a->b", "<!--"])))
         else: ops.append("bf:" + gen_chunk(rng))
     return ",".join(ops)
 
